@@ -263,6 +263,9 @@ TOKEN_CHARSET_FINDALL_PATTERN = re.compile(
     r'(?:; *charset="?([^";, ]*)"?)?'
     r'(?:, *)?')
 
+# Maximum value of the Content-Length header the listener accepts.
+MAX_CONTENT_LENGTH = 2 ** 31 - 1
+
 # Default maximum size of the indication queue.
 DEFAULT_MAX_IND_QUEUE_SIZE = 5000
 
@@ -649,7 +652,17 @@ class ListenerRequestHandler(BaseHTTPRequestHandler):
         # Content-Range, Expires, If-Range, Range.
 
         # Start processing the request
-        content_len = int(self.headers.get('Content-Length', 0))
+        content_len_str = self.headers.get('Content-Length', '0')
+        try:
+            content_len = int(content_len_str)
+        except ValueError:
+            content_len = -1
+        if content_len < 0 or content_len > MAX_CONTENT_LENGTH:
+            self.send_http_error(
+                400, 'header-mismatch',
+                _format("Invalid Content-Length header value: {0}",
+                        content_len_str))
+            return
         body = self.rfile.read(content_len)
 
         try:
